@@ -258,7 +258,7 @@ func (p *c19Probe) fb(id int) func(any, error) (any, error) {
 func c19Realise(batch bool, settings []Setting) c19Obs {
 	p := &c19Probe{gate: make(chan struct{}), seen: map[int]bool{}}
 	p.obs = c19Obs{PrepID: -1, ExecID: -1, PostID: -1, FbID: -1}
-	baseOpt := func(s Setting) flyt.NodeOption {
+	baseOpt := func(s Setting) any {
 		switch s.Param {
 		case "retries":
 			return flyt.WithMaxRetries(c19Retries[s.Val])
@@ -275,9 +275,7 @@ func c19Realise(batch bool, settings []Setting) c19Obs {
 	var base interface {
 		GetMaxRetries() int
 		GetWait() time.Duration
-		GetBatchConcurrency() int
 	}
-	var modeOf func() string
 	if !batch {
 		var opts []any
 		// a batch setting the plain builder of this implementation has no method for exists as an option only
@@ -329,9 +327,9 @@ func c19Realise(batch bool, settings []Setting) c19Obs {
 			case "wait":
 				b = b.WithWait(c19Waits[s.Val])
 			case "conc":
-				callBuilder(b, "WithBatchConcurrency", c19Conc[s.Val])
+				b, _ = callBuilder(b, "WithBatchConcurrency", c19Conc[s.Val])
 			case "mode":
-				callBuilder(b, "WithBatchErrorHandling", c19Modes[s.Val])
+				b, _ = callBuilder(b, "WithBatchErrorHandling", c19Modes[s.Val])
 			case "prep":
 				if s.Val == 2 {
 					b = b.WithPrepFuncAny(p.prepA(s.Val))
@@ -355,7 +353,6 @@ func c19Realise(batch bool, settings []Setting) c19Obs {
 			}
 		}
 		node, base = b, b
-		modeOf = func() string { return fmt.Sprint(b.GetBatchErrorHandling()) }
 	} else {
 		var opts []any
 		for _, s := range settings {
@@ -396,10 +393,16 @@ func c19Realise(batch bool, settings []Setting) c19Obs {
 			}
 		}
 		node, base = b, b
-		modeOf = func() string { return fmt.Sprint(b.GetBatchErrorHandling()) }
 	}
 	p.obs.Retries, p.obs.Wait = base.GetMaxRetries(), base.GetWait()
-	p.obs.Conc, p.obs.Mode = base.GetBatchConcurrency(), modeOf()
+	// batch settings need not be readable on every builder: a missing getter is marked and not compared
+	var okc, okm bool
+	if p.obs.Conc, okc = intGetter(node, "GetBatchConcurrency"); !okc {
+		p.obs.Conc = c19NoGetter
+	}
+	if p.obs.Mode, okm = strGetter(node, "GetBatchErrorHandling"); !okm {
+		p.obs.Mode = "(no getter)"
+	}
 	// probe run
 	done := make(chan struct{})
 	go func() {
@@ -527,6 +530,8 @@ func c19Diff(got, want c19Obs, what string) string {
 	return ""
 }
 
+const c19NoGetter = -999
+
 func plainBuilderHas(method string) bool {
 	return reflect.ValueOf(flyt.NewNode()).MethodByName(method).IsValid()
 }
@@ -566,6 +571,12 @@ func checkC19(t *testing.T, c C19Case) Verdict {
 		allBuilder = c19Realise(c.Batch, cfg.canonical("builder", c.Batch))
 	}); f != "" && !goroutinesRemain(f) {
 		return bad("C19:bubble", "%s", f)
+	}
+	if given.Conc == c19NoGetter {
+		want.Conc, allOpt.Conc, allBuilder.Conc = c19NoGetter, c19NoGetter, c19NoGetter
+	}
+	if given.Mode == "(no getter)" {
+		want.Mode, allOpt.Mode, allBuilder.Mode = given.Mode, given.Mode, given.Mode
 	}
 	if !c.Batch && cfg.exec < 0 {
 		// whether a function-style node without an exec function is runnable is not C19's clause
